@@ -127,6 +127,11 @@ func bencBody(sub int, class string) []byte {
 		return []byte("d1:mi5e" + req[sub] + "e")
 	case "unknownkeys":
 		return []byte("d3:bar2:hi3:fooi1e" + req[sub] + "e")
+	case "pexshortflags":
+		// well-formed peer lists whose flag strings are shorter than the number of peers
+		return []byte("d5:added12:\x01\x02\x03\x04\x1a\xe1\x05\x06\x07\x08\x1a\xe27:added.f1:\x016:added618:0123456789abcdefXY8:added6.f0:" + req[sub] + "e")
+	case "pexoddlen":
+		return []byte("d5:added7:\x01\x02\x03\x04\x1a\xe1\x057:added.f2:\x00\x006:added619:0123456789abcdefXYZ7:dropped5:\x01\x02\x03\x04\x05" + req[sub] + "e")
 	case "negint":
 		return []byte("d" + req[sub] + "1:pi-1ee")
 	}
